@@ -6,6 +6,7 @@ package main
 import (
 	"context"
 	"crypto/tls"
+	"crypto/x509"
 	"encoding/json"
 	"encoding/xml"
 	"errors"
@@ -52,10 +53,19 @@ type c13In struct {
 	Probe string `json:"probe,omitempty"`
 }
 
-// c13DropsSession: failures after which NewSession returns no Session object at all (the early failures: first
-// features not read, TLS not negotiated): the client forgets its stream-management state with it, so the next
-// successful attempt cannot resume and binds afresh.
-func c13DropsSession(f string) bool { return f == "cutfeatures" || f == "cutproceed" || c13HandshakeCut(f) != "" }
+// c13EarlyFailure: transient failures at the early steps of a negotiation (first features not read, TLS not
+// negotiated), where NewSession returns no Session object. The client keeps the object of the previous connection, and
+// with it the stream-management state: "resumed when possible" holds after such an attempt as after any other failed
+// one (hunt2-C13/f1: it used to forget the state and bind afresh). The name only serves the oracle's signatures.
+func c13EarlyFailure(f string) bool {
+	return f == "cutfeatures" || f == "cutproceed" || c13HandshakeCut(f) != "" || c13StreamEnded(f)
+}
+
+// c13StreamEnded: on a reconnection attempt the server (going down, or not up yet) ends the stream itself where the
+// negotiation awaits an element: <stream:error><system-shutdown/></stream:error></stream:stream> (serrfeatures) or a
+// bare </stream:stream> (closefeatures) in place of the first features, the stream error in reply to <starttls/> with
+// TLS mandatory (serrproceed). Transient, like the cut connection they are the polite form of.
+func c13StreamEnded(f string) bool { return f == "serrfeatures" || f == "closefeatures" || f == "serrproceed" }
 
 // c13HandshakeCut: TLS only: the connection ends in the middle of the handshake that follows <proceed/> (srv.go
 // connScript.TLSCut): before the server's answer to the ClientHello, inside the header of its first record, inside
@@ -80,11 +90,6 @@ var c13HandshakeCuts = []string{"tlscutnone", "tlscuthdr", "tlscutpayload", "tls
 func c13Resumes(in c13In, rd c13Round) bool {
 	if !rd.Resume || !in.SM {
 		return false
-	}
-	for _, f := range rd.Fails {
-		if c13DropsSession(f) {
-			return false
-		}
 	}
 	return true
 }
@@ -154,7 +159,7 @@ func (c13) RunFn() string { return "run_C13" }
 func (c13) Workers() int  { return 32 }
 func (c13) Journal() bool { return true }
 func (c13) Rule() string {
-	return "fault sequences of up to 4 rounds on successive connections of a real StreamManager+Client: abrupt drop, graceful </stream:stream> or <stream:error><system-shutdown/></stream:error></stream:stream> by the server, listener down for 0-120 ms (refused attempts), keepalive interval the default or 3-10 ms (shorter than the outage), 0-2 negotiation failures (transient: unexpected reply to <auth/>, with a clean stream close or with the connection cut, or the connection cut after the server's stream header / after the client's <starttls/>; or the connection ending inside the TLS handshake: before the server's first record, inside its header, inside its payload, right after it; permanent: SASL <failure/> with the server waiting for the client's closing tag or hanging up at once (reset / orderly), or - TLS mandatory - the handshake after <proceed/> refused by the server with an alert (TLS 1.3 only against an application pinning TLS 1.2; client certificate demanded) or by the client (certificate for another name, from an unknown authority, expired)), or a PostResumeHook of the application that fails after a successful negotiation, then a successful attempt on which the server grants or refuses a resumption (stream management) or that binds afresh; on every established session a stanza from the server must reach a handler and a stanza sent afterwards must arrive on that session's connection; the stream error also with <conflict/>; finally Stop, or Stop in the middle of an outage (then the server accepts again and must see nobody), or Stop during the first negotiation; also first-connection failures; cleartext or mandatory STARTTLS; TCP or WebSocket transport; distinct = fault sequence; non-trivial = at least one loss followed by a new session"
+	return "fault sequences of up to 4 rounds on successive connections of a real StreamManager+Client: abrupt drop, graceful </stream:stream> or <stream:error><system-shutdown/></stream:error></stream:stream> by the server, listener down for 0-120 ms (refused attempts), keepalive interval the default or 3-10 ms (shorter than the outage), 0-2 negotiation failures (transient: unexpected reply to <auth/>, with a clean stream close or with the connection cut, or the connection cut after the server's stream header / after the client's <starttls/>; or the server ending the stream itself (stream error / closing tag) in place of its first features or of <proceed/>, or the connection ending inside the TLS handshake: before the server's first record, inside its header, inside its payload, right after it; permanent: SASL <failure/> with the server waiting for the client's closing tag or hanging up at once (reset / orderly), or - TLS mandatory - the handshake after <proceed/> refused by the server with an alert (TLS 1.3 only against an application pinning TLS 1.2; client certificate demanded) or by the client (certificate for another name, from an unknown authority, expired)), or a PostResumeHook of the application that fails after a successful negotiation, then a successful attempt on which the server grants or refuses a resumption (stream management) or that binds afresh; on every established session a stanza from the server must reach a handler and a stanza sent afterwards must arrive on that session's connection; the stream error also with <conflict/>; finally Stop, or Stop in the middle of an outage (then the server accepts again and must see nobody), or Stop during the first negotiation; also first-connection failures; cleartext or mandatory STARTTLS; TCP or WebSocket transport; distinct = fault sequence; non-trivial = at least one loss followed by a new session"
 }
 func (c13) Decode(raw json.RawMessage) (interface{}, error) {
 	var in c13In
@@ -171,6 +176,10 @@ func (c13) Gen(r *rand.Rand, tier string) []interface{} {
 	out = append(out,
 		c13In{Rounds: []c13Round{{Term: "drop"}}},
 		c13In{Rounds: []c13Round{{Term: "close"}}},
+		// the server closes the stream on two sessions in a row (what the first close leaves behind in the transport
+		// must not be in the way of the second)
+		c13In{Rounds: []c13Round{{Term: "close"}, {Term: "close"}}},
+		c13In{SM: true, Rounds: []c13Round{{Term: "close", Resume: true}, {Term: "drop"}, {Term: "close", Resume: true}, {Term: "close"}}},
 		c13In{SM: true, Rounds: []c13Round{{Term: "drop", Resume: true}, {Term: "close", Resume: true}}},
 		c13In{Rounds: []c13Round{{Term: "drop", RefuseMs: 80}}},
 		c13In{Rounds: []c13Round{{Term: "drop", Fails: []string{"transient"}}}},
@@ -210,6 +219,15 @@ func (c13) Gen(r *rand.Rand, tier string) []interface{} {
 		c13In{TLS: true, Rounds: []c13Round{{Term: "close", Fails: []string{"transient", "permanentfin"}}}},
 		c13In{TLS: true, Rounds: []c13Round{{Term: "drop", Fails: []string{"permanent"}}}},
 		c13In{Rounds: []c13Round{{Term: "drop", Fails: []string{"permanentfin"}}}},
+		// resumed when possible: also after an attempt that failed before the features / during STARTTLS
+		c13In{SM: true, Rounds: []c13Round{{Term: "drop", Fails: []string{"cutfeatures"}, Resume: true}}},
+		c13In{TLS: true, SM: true, Rounds: []c13Round{{Term: "close", Fails: []string{"cutproceed"}, Resume: true}, {Term: "drop", Resume: true}}},
+		// the server ends the stream itself in place of its features (it is going down / not up yet)
+		c13In{Rounds: []c13Round{{Term: "drop", Fails: []string{"serrfeatures"}}}},
+		c13In{SM: true, Rounds: []c13Round{{Term: "close", Fails: []string{"closefeatures", "serrfeatures"}, Resume: true}}},
+		c13In{TLS: true, Rounds: []c13Round{{Term: "drop", Fails: []string{"serrproceed"}}}},
+		// wss://: a certificate that does not verify
+		c13In{Probe: "wsscert"},
 		// Stop while the manager is reconnecting (listener down, retry loop in its back-off); then the server is back
 		c13In{Rounds: []c13Round{{Term: "drop", RefuseMs: 80}}, StopOut: 1},
 		c13In{SM: true, Rounds: []c13Round{{Term: "close", Resume: true}, {Term: "serr", RefuseMs: 100, Resume: true}}, StopOut: 2},
@@ -278,6 +296,10 @@ func (c13) Gen(r *rand.Rand, tier string) []interface{} {
 					rd.Fails = append(rd.Fails, "cutfeatures")
 				case x == 2 && in.TLS:
 					rd.Fails = append(rd.Fails, "cutproceed")
+				case x == 5:
+					rd.Fails = append(rd.Fails, []string{"serrfeatures", "closefeatures"}[r.Intn(2)])
+				case x == 6 && in.TLS:
+					rd.Fails = append(rd.Fails, "serrproceed")
 				case x == 4 && in.TLS:
 					rd.Fails = append(rd.Fails, c13HandshakeCuts[r.Intn(len(c13HandshakeCuts))])
 				case x == 3 && !in.SM:
@@ -365,6 +387,9 @@ func c13Walk(in c13In, v c13Visitor) {
 
 func (c13) Input(inp interface{}) Sx {
 	in := inp.(c13In)
+	if in.Probe == "wsscert" {
+		return L(Z(2))
+	}
 	if in.Probe != "" {
 		return L(Z(1))
 	}
@@ -383,9 +408,7 @@ func (c13) Input(inp interface{}) Sx {
 			case kind == "hookfail":
 				a = 5
 			case c13Permanent(kind):
-				a, fl = 2, c13TLSRefusal(kind) != ""
-			default:
-				fl = c13DropsSession(kind)
+				a = 2
 			}
 			es = append(es, L(Z(0), Zi(a), B(fl)))
 			if a == 1 || a == 2 {
@@ -462,6 +485,12 @@ func c13Scripts(in c13In) (scripts []connScript, good map[int]bool, resumed map[
 			return connScript{Groups: [][]sItem{{hdrItem(), {T: "features", TLS: 2}}, {{T: "wait", N: 3}, {T: "eof"}}}}
 		}
 		switch kind {
+		case "serrfeatures":
+			return connScript{Groups: [][]sItem{{hdrItem(), {T: "serr", Cond: "system-shutdown"}, {T: "close"}}}, IdleDropMs: 1500}
+		case "closefeatures":
+			return connScript{Groups: [][]sItem{{hdrItem(), {T: "close"}}}, IdleDropMs: 1500}
+		case "serrproceed":
+			return connScript{Groups: [][]sItem{{hdrItem(), {T: "features", TLS: 2}}, {{T: "serr", Cond: "system-shutdown"}, {T: "close"}}}, IdleDropMs: 1500}
 		case "permanentdrop":
 			return connScript{Groups: append(pre(), []sItem{{T: "saslfailure"}, {T: "wait", N: 3}, {T: "eof"}})}
 		case "permanentfin":
@@ -516,9 +545,6 @@ func c13Scripts(in c13In) (scripts []connScript, good map[int]bool, resumed map[
 				add(connScript{Groups: append(pre(), []sItem{{T: "wait", N: 400}, {T: "message", N: 1}}), IdleDropMs: 1500}, false, false)
 			default:
 				add(fail(kind), false, false)
-				if c13DropsSession(kind) {
-					curID = "" // nothing to resume any more: the client will not even ask
-				}
 			}
 		},
 		term:    func(string) {},
@@ -861,8 +887,37 @@ func c13HeaderWrite() Sx {
 	return L(Z(9), B(ce.Permanent))
 }
 
+// c13WssCertificate: the WebSocket transport dials a wss:// address where a certificate is presented that does not
+// verify (its authority is not among the roots of the process, it does not name the address): how is the failure classified?
+func c13WssCertificate() Sx {
+	base, err := listenLoopback()
+	if err != nil {
+		return L(SBytes("listen-failed"))
+	}
+	ln := tls.NewListener(base, serverTLSConfig("valid"))
+	defer ln.Close()
+	go (&http.Server{Handler: http.HandlerFunc(func(w http.ResponseWriter, r *http.Request) { w.WriteHeader(http.StatusBadGateway) })}).Serve(ln)
+	t := xmpp.NewClientTransport(xmpp.TransportConfiguration{Address: "wss://" + base.Addr().String() + "/xmpp-websocket", Domain: srvDomain, ConnectTimeout: 2})
+	_, err = t.Connect()
+	var ce xmpp.ConnError
+	if err == nil || !errors.As(err, &ce) {
+		return L(SBytes("wss-dial-did-not-fail-with-a-ConnError"))
+	}
+	var ua x509.UnknownAuthorityError
+	var hn x509.HostnameError
+	var ci x509.CertificateInvalidError
+	if !errors.As(err, &ua) && !errors.As(err, &hn) && !errors.As(err, &ci) {
+		// not the failure this probe is about (the TLS handshake did not get as far as the verification)
+		return L(SBytes("listen-failed"), SBytes(err.Error()))
+	}
+	return L(Z(8), B(ce.Permanent))
+}
+
 func (c13) Run(inp interface{}) Sx {
 	in := inp.(c13In)
+	if in.Probe == "wsscert" {
+		return c13WssCertificate()
+	}
 	if in.Probe != "" {
 		return c13HeaderWrite()
 	}
@@ -1196,6 +1251,15 @@ func (c13) Run(inp interface{}) Sx {
 
 func (c13) Oracle(inp interface{}, obs Sx) (string, string) {
 	in := inp.(c13In)
+	if in.Probe == "wsscert" {
+		if len(obs.L) != 2 || obs.L[0].Z != 8 {
+			return "probe did not run: " + obs.String(), "hang"
+		}
+		if obs.L[1].Z == 0 {
+			return "on a wss:// address a server certificate that does not verify (unknown authority) is classified as a TRANSIENT error: a TLS policy failure does not end the retry loop", "wss-certificate-failure-transient"
+		}
+		return "", ""
+	}
 	if in.Probe != "" {
 		if len(obs.L) != 2 || obs.L[0].Z != 9 {
 			return "probe did not run: " + obs.String(), "hang"
@@ -1221,6 +1285,20 @@ func (c13) Oracle(inp interface{}, obs Sx) (string, string) {
 		return fmt.Sprintf("after Stop (called while the manager was reconnecting) and Run's return: %d connections (%d before Stop), %d sessions negotiated (%d), PostConnect ran %d times (%d)",
 			conns, wantConns, sessions, wantEstab, post, want), "session-after-stop"
 	}
+	if conns > wantConns || sessions < wantEstab {
+		// a session that could be resumed and was not: the scripted server answers the bind request that comes in
+		// place of <resume/> with <resumed/>, the attempt fails, and so does every later one
+		if post >= 1 && int(post) <= len(in.Rounds) {
+			rd := in.Rounds[post-1]
+			early := false
+			for _, f := range rd.Fails {
+				early = early || c13EarlyFailure(f)
+			}
+			if early && c13Resumes(in, rd) && post < want {
+				return fmt.Sprintf("after an attempt that failed before the features / during STARTTLS the session the server would resume was not resumed (%d connections for %d, %d sessions for %d)", conns, wantConns, sessions, wantEstab), "resumable-session-forgotten"
+			}
+		}
+	}
 	if conns > wantConns {
 		return fmt.Sprintf("the server accepted %d connections, the fault sequence accounts for %d", conns, wantConns), "extra-session"
 	}
@@ -1230,8 +1308,11 @@ func (c13) Oracle(inp interface{}, obs Sx) (string, string) {
 			// the round after which no new session came: what the manager met while reconnecting
 			rd := in.Rounds[post-1]
 			for _, f := range rd.Fails {
-				if c13DropsSession(f) {
+				if c13EarlyFailure(f) {
 					sig = "gave-up-after-cut-negotiation"
+				}
+				if c13StreamEnded(f) {
+					sig = "gave-up-after-stream-ended-by-server"
 				}
 			}
 			if sig == "sessions-missing" && rd.RefuseMs > 0 && in.WS {
